@@ -147,6 +147,85 @@ theorem casedec_needs_foreign_name :
 
 example : ([73, 68] : Bytes) ∉ wireNames := by decide
 
+/-! `casedec.err`: the same inside the error object -/
+
+theorem asWErr_filter_foreign (nm : Bytes) (e : List (Bytes × JVal)) (h : nm ∉ wireErrorNames) :
+    asWErr (some (.obj (e.filter (fun p => p.1 ≠ nm)))) = asWErr (some (.obj e)) := by
+  simp only [wireErrorNames, List.mem_cons, List.not_mem_nil, or_false, not_or] at h
+  obtain ⟨h1, h2, h3⟩ := h
+  simp only [asWErr, asRaw]
+  rw [lookup_filter_ne _ nm e (Ne.symm h1), lookup_filter_ne _ nm e (Ne.symm h2), lookup_filter_ne _ nm e (Ne.symm h3)]
+
+/-- an error object without its members named `nm` -/
+def dropIn (nm : Bytes) : JVal → JVal
+  | .obj e => .obj (e.filter (fun p => p.1 ≠ nm))
+  | v => v
+
+theorem dropErr_cons (nm k' : Bytes) (v : JVal) (t : List (Bytes × JVal)) :
+    dropErrMember nm ((k', v) :: t) =
+      (k', if k' = wireDecode_Error_name then dropIn nm v else v) :: dropErrMember nm t := by
+  cases v <;> simp only [dropErrMember, dropIn] <;> split <;> rfl
+
+theorem lookup_dropErr_ne (k nm : Bytes) (kvs : List (Bytes × JVal)) (h : k ≠ wireDecode_Error_name) :
+    lookup k (dropErrMember nm kvs) = lookup k kvs := by
+  induction kvs with
+  | nil => rfl
+  | cons p t ih =>
+    obtain ⟨k', v⟩ := p
+    rw [dropErr_cons]
+    simp only [lookup, ih]
+    by_cases hk : k' = wireDecode_Error_name
+    · have : k' ≠ k := by rw [hk]; exact Ne.symm h
+      simp [this]
+    · simp only [if_neg hk]
+
+theorem lookup_dropErr (nm : Bytes) (kvs : List (Bytes × JVal)) :
+    lookup wireDecode_Error_name (dropErrMember nm kvs) = (lookup wireDecode_Error_name kvs).map (dropIn nm) := by
+  induction kvs with
+  | nil => rfl
+  | cons p t ih =>
+    obtain ⟨k', v⟩ := p
+    rw [dropErr_cons]
+    simp only [lookup, ih]
+    cases lookup wireDecode_Error_name t with
+    | some w => rfl
+    | none =>
+      by_cases hk : k' = wireDecode_Error_name
+      · simp only [if_pos hk]; rfl
+      · simp only [if_neg hk]; rfl
+
+theorem asWErr_dropIn (nm : Bytes) (ov : Option JVal) (h : nm ∉ wireErrorNames) :
+    asWErr (ov.map (dropIn nm)) = asWErr ov := by
+  cases ov with
+  | none => rfl
+  | some v =>
+    cases v with
+    | obj e => exact asWErr_filter_foreign nm e h
+    | _ => rfl
+
+theorem decodeMsg_dropErr_foreign (nm : Bytes) (kvs : List (Bytes × JVal)) (h : nm ∉ wireErrorNames) :
+    decodeMsg (.obj (dropErrMember nm kvs)) = decodeMsg (.obj kvs) := by
+  simp only [decodeMsg, asRaw]
+  rw [lookup_dropErr, asWErr_dropIn nm _ h, lookup_dropErr_ne _ nm kvs (by decide), lookup_dropErr_ne _ nm kvs (by decide),
+    lookup_dropErr_ne _ nm kvs (by decide), lookup_dropErr_ne _ nm kvs (by decide), lookup_dropErr_ne _ nm kvs (by decide)]
+
+/-- what the model shows for `casedec.err <name> <object>` -/
+def modelCasedecErr (nm : Bytes) (kvs : List (Bytes × JVal)) : Option (DecObs × DecObs) :=
+  some (DecObs.ofModel (decodeMsg (.obj kvs)), DecObs.ofModel (decodeMsg (.obj (dropErrMember nm kvs))))
+
+theorem casedecErr_monitor_accepts_model (nm : Bytes) (kvs : List (Bytes × JVal)) (h : nm ∉ wireErrorNames) :
+    casedecErrMonitor (modelCasedecErr nm kvs) = none := by
+  rw [modelCasedecErr, decodeMsg_dropErr_foreign nm kvs h]
+  simp [casedecErrMonitor]
+
+/-- the hypothesis is needed: dropping the real `code` member changes the decoded error -/
+theorem casedecErr_needs_foreign_name :
+    casedecErrMonitor (modelCasedecErr WireError_Code_name
+      [(wireDecode_VersionTag_name, .str wireVersion), (wireDecode_ID_name, .int 1),
+       (wireDecode_Error_name, .obj [(WireError_Code_name, .int 5), (WireError_Message_name, .str [109])])]) =
+      some .caseMatchedErr := by
+  decide
+
 /-- the members of the error object the model writes for a Go error -/
 def modelWerr (e : GoErr) : Option (List (Bytes × JVal)) :=
   match encodeErr (toWireError e) with
